@@ -374,7 +374,7 @@ func genPDU(l PDULayout, sb *strings.Builder) {
 	w("	n := vParam(\"n\")")
 	w("	data := vBytes(\"in\", n)")
 	w("	p := new(%s)", T)
-	w("	vConcretizeAlloc()")
+	w("	vConcretizeAlloc(true)")
 	w("	vAllocLimit(16*n + 1024)")
 	w("	vBudget(400000 + 4000*n, true)")
 	for _, kf := range typeKFsC03(l) {
@@ -410,7 +410,7 @@ func genPDU(l PDULayout, sb *strings.Builder) {
 	w("	n := vParam(\"n\")")
 	w("	data := vBytes(\"in\", n)")
 	w("	p := new(%s)", T)
-	w("	vConcretizeAlloc()")
+	w("	vConcretizeAlloc(true)")
 	w("	vBudget(400000 + 4000*n, false)")
 	for _, kf := range typeKFsC03(l) {
 		w("	vKnown(%q, %q, %s)", kf.ID, kf.Pattern, kf.Excuse)
@@ -419,6 +419,7 @@ func genPDU(l PDULayout, sb *strings.Builder) {
 	for _, kf := range typeKFsC11(l) {
 		w("	vKnown(%q, %q, %s)", kf.ID, kf.Pattern, kf.Excuse)
 	}
+	w("	vConcretizeAlloc(false)")
 	w("	b, err := p.IEncode()")
 	w("	vObserve(\"bytes\", b)")
 	w("	vAssert(%q, err == nil)", lab("C11", "accepted-input-re-encodes"))
@@ -563,7 +564,7 @@ func genPkgHarness(pkg string, ls []PDULayout, sb *strings.Builder) {
 	w("func VH_C03_dispatch() {")
 	w("	n := vParam(\"n\")")
 	w("	data := vBytes(\"in\", n)")
-	w("	vConcretizeAlloc()")
+	w("	vConcretizeAlloc(true)")
 	w("	vAllocLimit(16*n + 1024)")
 	w("	vBudget(400000 + 4000*n, true)")
 	w("	pdu, err := %s(data)", disp)
@@ -612,6 +613,9 @@ func typeKFsC03(l PDULayout) []typeKF {
 }
 
 func typeKFsC11(l PDULayout) []typeKF {
+	if l.Pkg == "smgp30" && hasKindW(l, "fb", 10) {
+		return []typeKF{{ID: "KF-smgp-msgid-raw-on-encode-hex-on-decode", Pattern: "C11." + l.Pkg + "." + l.Type + ".accepted-input-re-encodes", Excuse: "true"}}
+	}
 	return nil
 }
 
